@@ -5,7 +5,7 @@ from lib.coqgen import N, Z, b, hx, opt, lst
 NAME = "icagmp"
 GO_PKG = "./icagmp"
 COQ_IMPORTS = ("From IBC Require Import Lib.Bytes Lib.Dec Lib.CorrLib IcaGmp.Gmp IcaGmp.Bank IcaGmp.Callbacks "
-               "IcaGmp.IcaHost Corr.IcaGmp.")
+               "IcaGmp.IcaHost IcaGmp.IcaChan Corr.IcaGmp.")
 CASE_TYPE = "Case"
 CHECK = "check"
 
@@ -292,10 +292,346 @@ def spec_ica_host(r):
         return "ICA host success but the bank state is not the effect of all messages: expected %s, got %s" % (cur, aft)
 
 
+# ---- C38: ICA channels -----------------------------------------------------------------------------
+
+ORD = {"ordered": "OrdOrdered", "unordered": "OrdUnordered", "none": "OrdNone"}
+STT = {"init": "StInit", "tryopen": "StTryOpen", "open": "StOpen", "closed": "StClosed"}
+
+
+def version_term(v):
+    if v[0] == "blank":
+        return "VBlank"
+    if v[0] == "bad":
+        return "VBad"
+    return "(VMeta (mkMd %s))" % " ".join(hx(x) for x in v[1:])
+
+
+def snap_term(s):
+    def keyedN(xs):
+        return lst(xs, lambda e: "(kN %s %s %s)" % (hx(e[0]), hx(e[1]), opt(e[2], N)))
+    def keyedB(xs):
+        return lst(xs, lambda e: "(kB %s %s %s)" % (hx(e[0]), hx(e[1]), opt(e[2], hx)))
+    def chans(xs):
+        return lst(xs or [], lambda e: "(cS %s %s)" % (N(e[0]), STT[e[1]]))
+    return "(mkSnap %s %s %s %s %s %s %s %s)" % (keyedN(s["c_active"]), keyedB(s["c_acc"]), chans(s["c_chans"]), N(s["c_next"]),
+                                                 keyedN(s["h_active"]), keyedB(s["h_acc"]), chans(s["h_chans"]), N(s["h_next"]))
+
+
+def chan_op_term(op, out):
+    k = op["op"]
+    if k == "register":
+        return "(OC (CRegister %s %s %s %s))" % (hx(op["owner"]), hx(op["conn"]), version_term(op["version"]), ORD[op["order"]])
+    if k == "init":
+        return "(OC (CInit %s %s %s %s %s))" % (ORD[op["order"]], hx(op["conn"]), hx(op["port"]), hx(op["cp_port"]), version_term(op["version"]))
+    if k == "ack":
+        return "(OC (CAck %s %s))" % (N(op["id"]), version_term(op["version"]))
+    if k == "close_ctrl":
+        return "(OC (CClose %s))" % N(op["id"])
+    if k in ("ctrl_try", "ctrl_confirm", "ctrl_close_init"):
+        return "(OC CTry)"
+    if k in ("host_init", "host_ack", "host_close_init"):
+        return "(OH HInit)"
+    if k == "try":
+        return "(OH (HTry %s %s %s %s %s))" % (ORD[op["order"]], hx(op["conn"]), hx(op["cp_port"]), version_term(op["version"]), hx(op["gen"]))
+    if k == "confirm":
+        return "(OH (HConfirm %s))" % N(op["id"])
+    if k == "close_host":
+        return "(OH (HClose %s))" % N(op["id"])
+    if k == "sendtx":
+        sent = "None" if out[0] != "ok" else "(Some (%s, %s))" % (hx(out[1]), N(out[2]))
+        return "(OCSend %s %s %s %s %s)" % (hx(op["signer"]), hx(op["owner"]), hx(op["conn"]), b(op["timeout_ok"]), sent)
+    if k == "ack_probe":
+        return "(OCAckProbe %s %s)" % (N(op["id"]), version_term(op["version"]))
+    if k == "try_probe":
+        return "(OHTryProbe %s %s %s %s %s)" % (hx(op["port"]), hx(op["conn"]), hx(op["cp_port"]), version_term(op["version"]), hx(op["gen"]))
+    raise ValueError("unknown ica_chan op " + k)
+
+
+def res_of(out):
+    r = out if isinstance(out, str) else out[0]
+    return {"ok": "ROk", "err": "RErr", "panic": "RPanic"}[r]
+
+
+def enc_ica_chan(r):
+    i = r["in"]
+    c0 = "(mkCtrl true [(%s, %s)] [] [] [] [] %s)" % (hx(i["connA"]), hx(i["connB"]), N(i["init"]["c_next"]))
+    h0 = "(mkHost true [(%s, %s)] [] [] [] [] [] %s)" % (hx(i["connB"]), hx(i["connA"]), N(i["init"]["h_next"]))
+    steps = lst(list(zip(i["ops"], r["out"])), lambda e: "(stepT %s %s %s)" % (chan_op_term(e[0], e[1][0]), res_of(e[1][0]), snap_term(e[1][1])))
+    return intern("IcaChanHist %s %s %s" % (c0, h0, steps))
+
+
+CTRL_PREFIX = b"icacontroller-".hex()
+HOST_PORT = b"icahost".hex()
+
+
+def _c38_walk(r):
+    """yield (index, violation text, is_host_replace) for one history; independent evaluation of C38"""
+    i = r["in"]
+    connA, connB = i["connA"], i["connB"]
+    prev = i["init"]
+    cport, corder, cver = {}, {}, {}        # controller channel -> port / order / metadata (list or None)
+    hkey = {}                               # host channel -> controller port
+    hcp = {}                                # host channel -> controller channel
+    default_md = [b"ics27-1".hex(), connA, connB, "", b"proto3".hex(), b"sdk_multi_msg".hex()]
+    def md_of(v):
+        return None if v[0] != "meta" else list(v[1:])
+    def same_but_addr(a, b_):
+        return a is not None and b_ is not None and [a[0], a[1], a[2], a[4], a[5]] == [b_[0], b_[1], b_[2], b_[4], b_[5]]
+    def state(chs, cid):
+        for e in chs or []:
+            if e[0] == cid:
+                return e[1]
+        return None
+    def active(lst_, conn, port):
+        for e in lst_:
+            if e[0] == conn and e[1] == port:
+                return e[2]
+        return None
+    for k, (op, out) in enumerate(zip(i["ops"], r["out"])):
+        res = out[0] if isinstance(out[0], str) else out[0][0]
+        snap = out[1]
+        kind = op["op"]
+        # always-error callbacks
+        if kind in ("ctrl_try", "ctrl_confirm", "ctrl_close_init", "host_init", "host_ack", "host_close_init") and res != "err":
+            yield k, "%s callback did not return an error" % kind, False
+        if kind in ("register", "init") and res == "ok":
+            port = op["port"] if kind == "init" else CTRL_PREFIX + op["owner"]
+            cp = op.get("cp_port", HOST_PORT)
+            newid = prev["c_next"]
+            cport[newid] = port; corder[newid] = op["order"]
+            v = op["version"]
+            cver[newid] = default_md if v[0] == "blank" else md_of(v)
+            if cp != HOST_PORT:
+                yield k, "channel handshake started with counterparty port %s, not icahost" % bytes.fromhex(cp).decode(), False
+            if not port.startswith(CTRL_PREFIX):
+                yield k, "controller handshake accepted on port %s" % port, False
+            old = active(prev["c_active"], op["conn"], port)
+            if old is not None:
+                if state(prev["c_chans"], old) != "closed":
+                    yield k, "handshake re-initialised for (connection, port) while its active channel %s is %s" % (old, state(prev["c_chans"], old)), False
+                if corder.get(old) != op["order"]:
+                    yield k, "reopening changed the channel ordering (%s -> %s)" % (corder.get(old), op["order"]), False
+                if not same_but_addr(cver.get(old), cver[newid]):
+                    yield k, "reopening accepted different metadata: %s vs %s" % (cver.get(old), cver[newid]), False
+        if kind == "init" and op["cp_port"] != HOST_PORT and res == "ok":
+            pass
+        if kind == "ack" and res == "ok":
+            cver[op["id"]] = md_of(op["version"])
+        if kind == "try" and res == "ok":
+            hkey[prev["h_next"]] = op["cp_port"]
+            hcp[prev["h_next"]] = op.get("cp_chan")
+        if kind == "sendtx" and res == "ok":
+            sent_port, sent_chan = out[0][1], out[0][2]
+            if op["signer"] != op["owner"]:
+                yield k, "SendTx for owner %s accepted in a transaction signed by %s" % (op["owner"], op["signer"]), False
+            if sent_port != CTRL_PREFIX + op["owner"]:
+                yield k, "SendTx sent on port %s, not the owner's port" % sent_port, False
+            if active(snap["c_active"], op["conn"], sent_port) != sent_chan or state(snap["c_chans"], sent_chan) != "open":
+                yield k, "SendTx used channel %s which is not the OPEN active channel" % sent_chan, False
+        # replacement only after CLOSED; addresses never change
+        for side, act, chs, acc in (("controller", "c_active", "c_chans", "c_acc"), ("host", "h_active", "h_chans", "h_acc")):
+            for e_prev, e_now in zip(prev[act], snap[act]):
+                if e_prev[2] is not None and e_now[2] != e_prev[2]:
+                    st = state(prev[chs], e_prev[2])
+                    if st != "closed":
+                        # the listed finding F10, narrowly: a host ChanOpenConfirm overwrites an entry whose channel is
+                        # OPEN on the host while its controller end is already CLOSED
+                        f10 = (side == "host" and kind == "confirm" and st == "open" and e_now[2] is not None
+                               and state(prev["c_chans"], hcp.get(e_prev[2])) == "closed")
+                        yield k, "%s active channel of (connection, port) replaced (%s -> %s) while channel %s is %s, not CLOSED" % (side, e_prev[2], e_now[2], e_prev[2], st), f10
+            for e_prev, e_now in zip(prev[acc], snap[acc]):
+                if e_prev[2] is not None and e_now[2] != e_prev[2]:
+                    yield k, "%s interchain account address of (connection, port) changed %s -> %s" % (side, e_prev[2], e_now[2]), False
+        # at most one OPEN controller channel per (connection, port)
+        seen = {}
+        for cid, st in snap["c_chans"] or []:
+            if st == "open":
+                p = cport.get(cid)
+                if p in seen:
+                    yield k, "two OPEN controller channels %s and %s on port %s" % (seen[p], cid, p), False
+                seen[p] = cid
+                if active(snap["c_active"], connA, p) != cid:
+                    yield k, "OPEN controller channel %s is not the active channel of its port" % cid, False
+        prev = snap
+
+
+def spec_ica_chan(r):
+    for k, why, _ in _c38_walk(r):
+        return "op %d: %s" % (k, why)
+
+
+def known_f10(r):
+    """host OnChanOpenConfirm replaced an active channel that was still OPEN (two handshakes in flight)"""
+    if r.get("k") != "ica_chan":
+        return False
+    vs = list(_c38_walk(r))
+    return bool(vs) and all(h for _, _, h in vs)
+
+
+# ---- C39: GMP histories ----------------------------------------------------------------------------
+
+def gmp_msg(m):
+    url, signers, eff = m
+    sg = "None" if signers is None else "(Some %s)" % lst(signers, hx)
+    step = "(gsend %s %s %s)" % (hx(eff[1]), hx(eff[2]), N(eff[3])) if eff[0] == "send" else "gfail"
+    return "(gmsg %s %s %s)" % (hx(url), sg, step)
+
+
+def gmp_data(d):
+    return "None" if d is None else "(Some (gdata %s %s %s %s %s))" % (hx(d[0]), hx(d[1]), N(d[2]), N(d[3]), N(d[4]))
+
+
+def gmp_op_term(op, out):
+    if op["kind"] == "send":
+        i = "(mkSendIn %s %s %s %s %s %s)" % (hx(op["src_port"]), hx(op["dst_port"]), b(op["cids_ok"]), gmp_data(op["data"]),
+                                            opt(op["sender_addr"], hx), hx(op["signer"]))
+        return "(GSend %s %s)" % (i, b(out[0] == "ok"))
+    msgs = "None" if op["msgs"] is None else "(Some %s)" % lst(op["msgs"], gmp_msg)
+    i = "(grecv %s %s %s %s %s %s)" % (hx(op["src_port"]), hx(op["dst_port"]), hx(op["version"]), hx(op["client"]), gmp_data(op["data"]), msgs)
+    t = op["triple"]
+    return "(GRecv %s (%s, %s, %s) %s %s %s)" % (i, hx(t[0]), hx(t[1]), hx(t[2]), res_of(out[0]), opt(out[1], hx), pairs(out[2], hx, N))
+
+
+def enc_gmp_hist(r):
+    ops = lst(list(zip(r["in"]["ops"], r["out"])), lambda e: gmp_op_term(e[0], e[1]))
+    return intern("GmpHist %s %s" % (pairs(r["in"]["bank"], hx, N), ops))
+
+
+def spec_gmp_hist(r):
+    """C39 on a history: write-once accounts map with derived addresses, single-signer execution, atomicity,
+    sender = signer on sends"""
+    bank = {a: int(v) for a, v in r["in"]["bank"]}
+    entries = {}
+    for k, (op, out) in enumerate(zip(r["in"]["ops"], r["out"])):
+        if op["kind"] == "send":
+            if out[0] == "ok" and (op["sender_addr"] is None or op["sender_addr"] != op["signer"]):
+                return "op %d: OnSendPacket accepted a packet whose sender %s is not the signer %s" % (k, op["sender_addr"], op["signer"])
+            continue
+        status, entry, after = out
+        aft = {a: int(v) for a, v in after}
+        t = tuple(op["triple"])
+        if t in entries and entries[t] != entry:
+            return "op %d: the account of triple %s changed from %s to %s" % (k, t, entries[t], entry)
+        if entry is not None:
+            want = py_gmp_address(*(bz(x) for x in t)).hex()
+            if entry != want:
+                return "op %d: stored account %s of triple %s is not its derived address %s" % (k, entry, t, want)
+            for t2, e2 in entries.items():
+                if t2 != t and e2 == entry:
+                    return "op %d: triples %s and %s share the account %s" % (k, t, t2, entry)
+            entries[t] = entry
+        if status != "ok":
+            if aft != bank:
+                return "op %d: GMP receive failed (%s) but the bank state changed" % (k, status)
+            continue
+        if op["data"] is None or op["msgs"] is None or len(op["msgs"]) == 0:
+            return "op %d: GMP receive succeeded without a decodable, non-empty message list" % k
+        acct = entry
+        if acct is None:
+            return "op %d: GMP receive succeeded but no account is recorded for the triple" % k
+        cur = dict(bank)
+        for j, (url, signers, eff) in enumerate(op["msgs"]):
+            if signers is None or len(signers) != 1 or signers[0] != acct:
+                return "op %d: message %d executed with signers %s, required exactly [%s]" % (k, j, signers, acct)
+            if eff[0] != "send":
+                return "op %d: message %d is known to fail but the receive succeeded" % (k, j)
+            _, f, to, amt = eff; amt = int(amt)
+            if cur.get(f, 0) < amt:
+                return "op %d: message %d overdraws but the receive succeeded" % (k, j)
+            cur[f] -= amt; cur[to] = cur.get(to, 0) + amt
+        if {a: cur.get(a, 0) for a in aft} != aft:
+            return "op %d: committed bank state %s is not the effect of all messages %s" % (k, aft, cur)
+        bank = aft
+
+
+# ---- C40: middleware entry points -------------------------------------------------------------------
+
+CB_MAX = 1000000
+
+
+def enc_cb_mw(r):
+    t, kind, swallow, limit, c0, gf, cbkind, used = r["in"]
+    cls, inner, after, delta, ack_ok = r["out"]
+    if cbkind == "notcb":
+        d = "NotCbPacket"
+    elif cbkind == "invalid" and py_user_gas(gf) is not None:
+        d = "CbInvalid"                      # malformed for another reason than the gas field (empty address)
+    else:
+        d = "(CbWanted %s)" % gas_field(gf)
+    if c0 is None:
+        c0 = after
+    if cls.startswith("panic-"):
+        obs = "(MPanicObs %d)" % PANC[cls[6:]]
+    else:
+        obs = "(MRet %s %s)" % (b(cls == "ret-ok"), N(max(delta, 0)))
+    return "CbMw %s %d %s %s %s %d %s %s %s %s %s" % (CBT[t], KIND[kind], b(swallow), N(limit), N(c0), CB_MAX, d, N(used), obs, opt(inner, N), N(after))
+
+
+def spec_cb_mw(r):
+    """C40 on one middleware call: gas bound, lifecycle continues for ack/timeout, send failures propagate,
+    failing destination callback => error ack, retry panic only when exec < commit"""
+    t, kind, swallow, limit, c0, gf, cbkind, used = r["in"]
+    cls, inner, after, delta, ack_ok = r["out"]
+    limit, used, after = int(limit), int(used), int(after)
+    if cbkind == "notcb":
+        if cls != "ret-ok" or delta != 0:
+            return "%s without callback data did not pass through (%s)" % (t, cls)
+        return None
+    if c0 is None:      # callback never ran: malformed callback data
+        if cbkind == "invalid" and cls != "ret-err":
+            return "%s with malformed callback data returned %s" % (t, cls)
+        return None
+    c0 = int(c0); inner = int(inner)
+    remaining = limit - c0
+    u = py_user_gas(gf)
+    commit = CB_MAX if (u == 0 or u > CB_MAX) else u
+    exe = min(remaining, commit)
+    if inner != exe:
+        return "%s callback ran with gas limit %d, required min(remaining %d, commit %d)" % (t, inner, remaining, commit)
+    charged = after - c0
+    if charged != min(used, exe) or charged > min(remaining, commit):
+        return "%s callback charged %d gas, required min(used %d, exec %d)" % (t, charged, used, exe)
+    oog = used > exe
+    if swallow:
+        panicked = False; failed = kind != "nil"
+    else:
+        panicked = oog or kind == "panic"; failed = panicked or kind == "err"
+    corner = swallow and kind == "nil" and oog          # executor outside the meter discipline
+    if t == "send_packet":
+        if panicked and not cls.startswith("panic-"):
+            return "send callback panicked but the send returned %s" % cls
+        if failed and not panicked and cls == "ret-ok":
+            return "send callback failed but the send was accepted"
+        return None
+    if oog and exe < commit:
+        if cls != "panic-retry":
+            return "%s callback out of gas with exec %d < commit %d: expected the OutOfGas retry panic, got %s" % (t, exe, commit, cls)
+        return None
+    if cls.startswith("panic-"):
+        return "%s callback: panic %s escaped although exec >= commit or no out-of-gas" % (t, cls)
+    bad = failed or oog
+    if t == "receive_packet":
+        if bad and (cls != "ret-err" or ack_ok):
+            return "failing destination callback did not produce an error acknowledgement"
+        if not bad and (cls != "ret-ok" or not ack_ok or delta != 1):
+            return "successful destination callback: ack %s, state delta %d" % (ack_ok, delta)
+    else:
+        if cls != "ret-ok":
+            return "%s: callback failure blocked the packet lifecycle (%s)" % (t, cls)
+        if not bad and delta != 1:
+            return "%s: successful callback state not committed" % t
+    if bad and delta != 0 and not corner:
+        return "%s: failing callback's state change was kept" % t
+
+
 KINDS = {
     "gmp_addr": dict(props=["C39"], enc=enc_gmp_addr, spec=spec_gmp_addr, exact=True),
     "cb_gas": dict(props=["C40"], enc=enc_cb_gas, spec=spec_cb_gas, exact=True),
+    "gmp_hist": dict(props=["C39"], enc=enc_gmp_hist, spec=spec_gmp_hist, exact=False),
+    "ica_chan": dict(props=["C38"], enc=enc_ica_chan, spec=spec_ica_chan, exact=False,
+                     nontrivial=lambda r: len(r["in"]["ops"]) >= 4),
     "ica_host": dict(props=["C37"], enc=enc_ica_host, spec=spec_ica_host, exact=False),
+    "cb_mw": dict(props=["C40"], enc=enc_cb_mw, spec=spec_cb_mw, exact=False),
     "cb_process": dict(props=["C40"], enc=enc_cb_process, spec=spec_cb_process, exact=False),
 }
 
@@ -303,4 +639,4 @@ MONITORS = {
     "C39": [mon_gmp_addr_injective],
 }
 
-KNOWN = {}
+KNOWN = {"F10": known_f10}
